@@ -43,15 +43,38 @@ FIRST = {
     "C15-H": "missed -> well-formed value of the type followed by a surplus component",
     "C10-G": "missed -> device that files every accepted I-Am, damaged I-Ams then requests; found F58 on the way",
     "C10-H": "missed -> the device as a registered foreign device, BVLL results from the BBMD's address and from clients",
+    "C18-E": "missed (routes were out of scope) -> routed spellings of 40 pool addresses",
+    # round 5 (C04 C02 C03 C09 C20: G H; the others: I J)
+    "C20-G": "missed -> the calendars are edited under a schedule object that has already evaluated the day",
+    "C20-H": "missed by C20 (scheduler heap); caught by C14",
+    "C02-H": "missed (a fresh Tag per value) -> one Tag object refilled and re-encoded for every member of a list",
+    "C09-H": "missed -> one message object sent twice through the codec with a change in between",
+    "C14-I": "missed -> EarlySuspend (a remembered installation taken back before the manager exists)",
+    "C14-J": "NOT caught: the interval / offset of a recurring task are constants of Kernel.tla; re-installing one task object with other parameters is not modelled (DESIGN 9.6)",
+    "C19-I": "NOT caught: the node-level rigs probe with the node's own application packets; forwarded transit traffic of a multi-port node is C06's subject and its next hop is not compared with the cache there (DESIGN 9.6)",
+    "C19-J": "missed (network numbers were small) -> two of the four destination networks and one source network beyond 32767; also caught by C08",
+    "C15-I": "missed by C15 (values are compared as encoded by the same library); caught by C01 (bit strings of 8n bits)",
+    "C15-J": "NOT caught: add_property / delete_property at run time on one of two objects of a class is not an operation of ObjStore.tla (DESIGN 9.6)",
+    "C06-J": "missed (routers had no application) -> routers that are devices as well in every fourth topology",
+    "C13-I": "missed by C13 (scheduler heap; the rig fires due timers itself); caught by C14",
+    "C13-J": "missed by C13 (what a reader decodes is not modelled); caught by C09 (a decoder that does not start from an empty table)",
+    "C12-I": "missed -> DeviceInfo.maxNpduLength recorded by the application larger than the peer's max APDU",
+    "C16-I": "missed by C16 (scheduler heap); caught by C14",
+    "C03-G": "missed -> an Any given two components (cast_in twice, two constructor arguments)",
+    "C05-I": "missed by C05 (scheduler; the rig fires due timers itself); caught by C14 (the kernel raises on a checked history)",
+    "C05-J": "missed -> a node's own max-segments limit against a peer that left it unspecified (FaultFreeSucceeds)",
+    "C10-I": "missed by C10 (scheduler heap); C14 see final.txt",
+    "C10-J": "missed by C10 (no request of more than 255 segments there); caught by C05 (long segmented requests)",
+    "C04-G": "missed by C04 (fewer than 256 requests per stack); caught by C11 (more than 256 sequential requests)",
 }
 rows = []
 for d in sorted(os.listdir(os.path.join(HERE, "seeded"))):
-    m = re.match(r"^(C\d\d)-([C-H])$", d)
+    m = re.match(r"^(C\d\d)-([C-J])$", d)
     if not m:
         continue
     p = os.path.join(HERE, "seeded", d)
     notes = open(os.path.join(p, "notes.txt")).read().strip().split("\n")
-    what = re.sub(r"^(C\d\d )?[Vv]ariant [A-H]\s*[-:]+\s*", "", notes[0]).strip()[:170]
+    what = re.sub(r"^(C\d\d )?[Vv]ariant [A-J]\s*[-:]+\s*", "", notes[0]).strip()[:170]
     fin = open(os.path.join(p, "final.txt")).read().strip().split("\n") if os.path.exists(os.path.join(p, "final.txt")) else []
     res = []
     for line in fin:
